@@ -596,6 +596,49 @@ type lateObs struct {
 	Returned bool  `json:"returned"`
 }
 
+// stall monitor: intervals in which the whole test process was not scheduled (overloaded machine) are not the
+// code's time; they are subtracted before a wait is judged late
+type vStall struct {
+	at  time.Time
+	dur time.Duration
+}
+
+var (
+	vStallMu   sync.Mutex
+	vStalls    []vStall
+	vStallOnce sync.Once
+)
+
+func vStartStallMonitor() {
+	vStallOnce.Do(func() {
+		go func() {
+			last := time.Now()
+			for {
+				time.Sleep(2 * time.Millisecond)
+				now := time.Now()
+				if d := now.Sub(last) - 2*time.Millisecond; d > 25*time.Millisecond {
+					vStallMu.Lock()
+					vStalls = append(vStalls, vStall{last, d})
+					vStallMu.Unlock()
+				}
+				last = now
+			}
+		}()
+	})
+}
+
+func vStalledBetween(a, b time.Time) time.Duration {
+	var sum time.Duration
+	vStallMu.Lock()
+	for _, s := range vStalls {
+		if s.at.Before(b) && s.at.Add(s.dur).After(a) {
+			sum += s.dur
+		}
+	}
+	vStallMu.Unlock()
+	return sum
+}
+
 func (ex *vExec) checkLate(out *[]lateObs) {
 	for i, r := range ex.ws {
 		r.mu.Lock()
@@ -604,11 +647,11 @@ func (ex *vExec) checkLate(out *[]lateObs) {
 			if end.IsZero() {
 				end = time.Now()
 			}
-			if el := end.Sub(r.selT); el > r.tmo+ex.slack {
+			if el := end.Sub(r.selT) - vStalledBetween(r.selT, end); el > r.tmo+ex.slack {
 				r.lateSeen = true
 				since := int64(-1)
 				if !r.staleT.IsZero() {
-					since = end.Sub(r.staleT).Milliseconds()
+					since = (end.Sub(r.staleT) - vStalledBetween(r.staleT, end)).Milliseconds()
 				}
 				*out = append(*out, lateObs{W: i + 1, Stales: r.stales, TmoMs: r.tmo.Milliseconds(), ElapsMs: el.Milliseconds(), SinceSt: since, Returned: !r.leftT.IsZero()})
 			}
@@ -832,6 +875,7 @@ var reGo = regexp.MustCompile(`(?m)^goroutine (\d+) \[([^\]]*)\]:`)
 // finale: all gates are opened and the execution runs freely; everything must come to rest.
 func (ex *vExec) finale(late *[]lateObs) *hangObs {
 	ex.gating.Store(false)
+	finaleStart := time.Now()
 	close(ex.free)
 	all := append([]*vRole{ex.run}, append(append([]*vRole{}, ex.cs...), ex.ws...)...)
 	var horizon time.Time
@@ -881,7 +925,7 @@ func (ex *vExec) finale(late *[]lateObs) *hangObs {
 		}
 		ex.checkLate(late)
 		release() // a goroutine may have parked while the gates were being switched off
-		if !pending || time.Now().After(horizon) {
+		if !pending || time.Now().After(horizon.Add(vStalledBetween(finaleStart, time.Now()))) {
 			break
 		}
 		time.Sleep(5 * time.Millisecond)
@@ -978,7 +1022,8 @@ func (ex *vExec) classifyHang() (string, []string) {
 			setHeadSend = true
 		case strings.Contains(state, "RWMutex") && strings.Contains(top, "MasterHead"):
 			headReaders++
-		case strings.Contains(state, "RWMutex") || strings.Contains(state, "semacquire"):
+		case strings.Contains(state, "Mutex") || strings.Contains(state, "semacquire"):
+			// sync.RWMutex.Lock (the writer waiting for the readers) or sync.Mutex.Lock (writers queued behind it)
 			lockWaiters++
 		}
 	}
@@ -1002,6 +1047,7 @@ func TestVerifGate(t *testing.T) {
 	U := time.Duration(vEnvInt("VERIF_U_MS", 200)) * time.Millisecond
 	par := vEnvInt("VERIF_PAR", 32)
 	VerifHook = vHookFn
+	vStartStallMonitor()
 	w := vCreate(out)
 	defer w.close()
 	var scripts []*vScript
